@@ -84,6 +84,9 @@ var schedAssumptions = append([]string{
 }, commonAssumptions...)
 
 var specs = []spec{
+	{ID: "C10", Pkg: ".", Level: "exploration", Instrument: true, Procs: 2,
+		Rule:        "full product (quick: minus combinations that only multiply independent options) of container {MPEG-TS, fMP4} x base time {0, 1 tick, 6 s, 2^32-0.5 s, 2^33-1.5 s with the wrap inside the stream (TS) / 2^40 (fMP4)} x tracks {video, audio, video+audio in one playlist in both orders, video + 1..3 audio renditions with timescales 48000/44100/32000} x presentation offsets {none, B-frame pattern} x fragments per segment {1, 3} (+ 10, 11, 12, 16) x addressing {files, byte ranges of one resource incl. the init} x PROGRAM-DATE-TIME {absent, present} x {VOD, live start} x audio {aligned, 100 ms ahead and multiplexed first, 100 ms behind}; each stream is synthesised with mediacommon's writers, served by the scripted transport and read by the real Client in a synctest bubble; reference model: the list of units with container times; distinct = distinct (case, delivered unit count)",
+		Assumptions: append([]string{"streams are synthesised with mediacommon's MPEG-TS / fMP4 writers", "client goroutines are scheduled by the Go runtime inside a testing/synctest bubble (virtual clock)"}, commonAssumptions...)},
 	{ID: "C11", Pkg: ".", Level: "model_checking", Instrument: true, Procs: 2,
 		Rule:        "explicit enumeration of playlist histories: the server answers the n-th playlist poll after the events {advance the media sequence by 0,1,2,3,6; append ENDLIST} chosen for every poll, all histories to depth 4 (5), x window size {1,2,3,4,6,10} x type {none, EVENT, VOD} x URI style {relative, absolute, with query, byte range with start, byte range without start} and, with a multivariant entry point, two renditions evolving independently (all depth-3 x depth-2 history pairs); each history is one run of the real Client against a scripted in-process transport inside a synctest bubble; reference model: an integer (next media sequence number) predicting the exact request sequence, Range headers and the final error; states = histories, transitions = events; distinct = distinct (scenario, end, request counts)",
 		Assumptions: append([]string{"client goroutines are scheduled by the Go runtime inside a testing/synctest bubble (virtual clock); the schedule is not enumerated for this property, the playlist history is"}, commonAssumptions...)},
